@@ -92,6 +92,10 @@ for _n in ('firstreq_selftest_wrong_byte', 'firstreq_selftest_wrong_port'):
     HARNESSES[_n] = {'module': 'verif_firstreq.rs', 'target': 'vacuity guard', 'what': 'a first-request harness with a deliberately wrong expectation is refuted (kani::should_panic)'}
 SETS['C09'] = [h for h in FIRSTREQ if h != 'firstreq_minecraft_java'] + ['firstreq_selftest_wrong_byte', 'firstreq_selftest_wrong_port', 'master_construct_payload',
                'valve_packet_to_bytes', 'valve_default_payload', 'gs3_request_packet_to_bytes', 'mc_as_string_multibyte']
+MODULES['verif_quake.rs'] = {'owner': 'crates/lib/src/protocols/quake/client.rs', 'name': 'verif_quake'}
+HARNESSES['quake_remove_wrapping_quotes_small'] = {'module': 'verif_quake.rs', 'target': 'protocols::quake::client::remove_wrapping_quotes', 'timeout': 900, 'replayable': True,
+    'what': 'wrapping quotes are removed iff the token has at least two characters and starts and ends with a quote; nothing else is touched', 'bounded': True, 'bound': 'all strings of up to 3 characters over the alphabet {quote, a}'}
+SETS['C05'] = ['quake_remove_wrapping_quotes_small', 'firstreq_quake_one', 'firstreq_quake_two', 'firstreq_quake_three']
 DYNAMIC = {'C14': 'gen_defs'}
 BATCH = {"C14": 16}
 
